@@ -2085,7 +2085,7 @@ def _np_asarray(I, x, **kw):
         return Cell("arr", v)
     if isinstance(x, (SymSeq, SymStruct)):
         return Cell("arr", x)
-    if isinstance(x, list) and all(_scalar(v) for v in x):
+    if isinstance(x, (list, tuple)) and all(_scalar(v) for v in x):
         items = list(x)
         elem = "Real" if any(_elem_of(v) == "Real" for v in items) else \
             ("Int" if items else "Real")
